@@ -5,7 +5,7 @@ import vlib
 from props import engine_common as ec
 
 PID = "C01"
-LEAN_MODULES = ["QbiceVerif.Props.C01", "QbiceVerif.Props.C01Oracle", "QbiceVerif.Props.NonVacuity.C01"]
+LEAN_MODULES = ["QbiceVerif.Props.C01", "QbiceVerif.Props.C01Oracle", "QbiceVerif.Props.NonVacuity.C01", "QbiceVerif.Props.NonVacuity.C01Total"]
 DRIVER = "drv_engine"
 HARNESS_BIN = "engine"
 SINGLE = []      # no known finding left for the acyclic engine (F1, F14 fixed by 2abe9f6, b832249)
